@@ -276,7 +276,7 @@ TRUSTED_BASE = [
     "Coq 8.16.1 kernel; vm_compute (bytecode VM) for evaluating generated cases; no native_compute",
     "no declared axioms; Print Assumptions per property theorem recorded in this file",
     "Coq's primitive floats (hardware IEEE binary64 under vm_compute) only in the case evaluators of the correspondence checks "
-    "(BinCases, FuncCases, TopkCases, AggFloat, the float instance of RangeFns), never in a theorem; coqchk -o over all Props: Axioms <none>",
+    "(BinCases, FuncCases, TopkCases, BucketCases, AggFloat, the float instance of RangeFns), never in a theorem; the exact-arithmetic theorems use the standard library's rationals (QArith, and Qcanon for Leibniz equality), which declare no axioms; coqchk -o over all Props: Axioms <none>",
     "correspondence check: Go harness (generators, instrumented storage, serialisation of cases to Gallina, canonicalisation)",
     "Generated.v table generator (reflection over exported maps and probing of exported constructors)",
     "model is hand-written; parts of the code modelled rather than verified are listed in DESIGN.md section 6",
